@@ -28,12 +28,14 @@ class Space:
         self.tables = None     # ugrid: {'face_node': [[...]], ...} 0-based with None
         self.world = None
         self.other = {}        # name -> observed-at-input values for non-grid variables (filled by executor obs)
+        self.is_world = False
 
     @classmethod
     def from_world(cls, world: worldgen.World, variant=0):
         s = cls()
         s.conv = world.conv
         s.world = world
+        s.is_world = True
         s.kinds = {k: {'dims': list(v['dims']), 'shape': list(v['shape'])} for k, v in world.kinds.items()}
         for name, info in world.vars.items():
             vals = world.canonical_array(name, variant).reshape(info['eshape'] + info['sshape'])
@@ -189,14 +191,66 @@ def _eq(a, b):
     return (a == b) | (numpy.isnan(a) & numpy.isnan(b))
 
 
+def selection_closure(space: Space, sel):
+    """
+    'The same holds for edge and node variables with respect to the selected edges and nodes': the selected
+    edges / nodes are those that belong to at least one selected cell.  Derived here from the selected faces with
+    the generator's own topology; returns [(clause, detail)] where the mask's edge / node selection differs.
+    """
+    fails = []
+    if not space.is_world or 'face' not in sel:
+        return fails
+    fsel = sel['face']
+    derived = {}
+    if space.conv == 'ugrid':
+        t = space.tables
+        nn = space.kinds['node']['shape'][0]
+        node = numpy.zeros(nn, bool)
+        for fi in numpy.flatnonzero(fsel):
+            for n in t['face_node'][fi]:
+                if n is not None:
+                    node[n] = True
+        derived['node'] = node
+        if 'edge' in space.kinds and 'face_edge' in t:
+            edge = numpy.zeros(space.kinds['edge']['shape'][0], bool)
+            for fi in numpy.flatnonzero(fsel):
+                for e in t['face_edge'][fi]:
+                    if e is not None:
+                        edge[e] = True
+            derived['edge'] = edge
+    elif space.conv == 'shoc_standard':
+        ny, nx = fsel.shape
+        left = numpy.zeros((ny, nx + 1), bool)
+        back = numpy.zeros((ny + 1, nx), bool)
+        node = numpy.zeros((ny + 1, nx + 1), bool)
+        for j, i in zip(*numpy.nonzero(fsel)):
+            left[j, i] = left[j, i + 1] = True
+            back[j, i] = back[j + 1, i] = True
+            node[j, i] = node[j, i + 1] = node[j + 1, i] = node[j + 1, i + 1] = True
+        derived = {'left': left, 'back': back, 'node': node}
+    for kind, want in derived.items():
+        got = sel.get(kind)
+        if got is None:
+            continue
+        if got.shape != want.shape or (got != want).any():
+            extra = int((got & ~want).sum()) if got.shape == want.shape else -1
+            lost = int((~got & want).sum()) if got.shape == want.shape else -1
+            fails.append(('selected-elements-not-those-of-selected-cells',
+                          f'{kind} selection differs from the {kind}s of the selected cells: {extra} extra, {lost} missing'))
+    return fails
+
+
 def judge_clip(space: Space, sel, obs, *, label=''):
     """
     -> (c08 failures [(clause, detail)], c09 failures, new Space or None)
     `obs` is an observe_dataset() of the loaded/reopened result.
     """
+    closure = [(c, f'{label}: {d}') for c, d in selection_closure(space, sel)]
     if space.conv == 'ugrid':
-        return _judge_mesh(space, sel, obs, label)
-    return _judge_grid(space, sel, obs, label)
+        c08, c09, new = _judge_mesh(space, sel, obs, label)
+    else:
+        c08, c09, new = _judge_grid(space, sel, obs, label)
+    return closure + c08, c09, (new if not closure else None) if new is not None else None
 
 
 def _expected_masked(space, sel):
